@@ -119,23 +119,46 @@ def valid_extra(node, t):
     return out
 
 
-POSITIONS = {
-    'behaviour': ('globally: no t { %s }', {'this': 't'}),
-    'activator': ('after t { %s }: no u', {'this': 't'}),
-    'terminator': ('until t { %s }: some u', {'this': 't'}),
-    'trigger': ('globally: t { %s } causes u', {'this': 't'}),
-    'second-of-disjunction': ('globally: no (u or t { %s })', {'this': 't'}),
-}
-ALIAS_POSITIONS = {
-    'alias-from-disjunctive-trigger': 'globally: (s as A or u) causes t { %s }',
-    'alias-from-disjunctive-activator': 'after (u or s as A): no t { %s }',
-    'alias-from-activator': 'after s as A: no t { %s }',
-    'alias-from-trigger': 'globally: s as A causes t { %s }',
-    'alias-in-terminator': 'after s as A until t { %s }: no u',
-    'alias-used-inside-a-disjunction': 'after s as A: no (u or t { %s })',
-    'alias-used-inside-a-disjunctive-behaviour': 'globally: s as A causes (t { %s } or u or w)',
-    'alias-used-inside-a-disjunctive-terminator': 'after s as A until (u or t { %s }): some w',
-}
+def _positions():
+    """Every place an event's predicate can sit: scope position x scope kind x pattern kind (own-message paths),
+    and every place from which an alias can reach it (alias-rooted paths)."""
+    own, alias = {}, {}
+    patterns = {'absence': 'no %s', 'existence': 'some %s', 'response': '%s causes w', 'response-behaviour': 'u causes %s', 'requirement': '%s requires w', 'requirement-trigger': 'u requires %s',
+                'prevention': '%s forbids w', 'prevention-behaviour': 'u forbids %s'}
+    ev = 't { %s }'
+    # the event in the pattern, under each scope kind
+    for pk, pt in patterns.items():
+        for sk, st in (('globally', 'globally: '), ('after', 'after s: '), ('until', 'until u2: '), ('after-until', 'after s until u2: ')):
+            own[f'{pk} in {sk}'] = (st + pt.replace('%s', ev), {'this': 't'})
+    # the event as activator / terminator, under each pattern kind
+    for pk, pt in (('absence', 'no u'), ('existence', 'some u'), ('response', 'u causes w'), ('requirement', 'u requires w'), ('prevention', 'u forbids w')):
+        own[f'activator, {pk}'] = ('after ' + ev + ': ' + pt, {'this': 't'})
+        own[f'activator of after-until, {pk}'] = ('after ' + ev + ' until u2: ' + pt, {'this': 't'})
+        own[f'terminator, {pk}'] = ('until ' + ev + ': ' + pt, {'this': 't'})
+        own[f'terminator of after-until, {pk}'] = ('after s until ' + ev + ': ' + pt, {'this': 't'})
+    own['second-of-disjunction'] = ('globally: no (u or ' + ev + ')', {'this': 't'})
+    own['first-of-disjunctive-terminator'] = ('until (' + ev + ' or u): w causes u2', {'this': 't'})
+    # alias bound by s, used by t
+    for pk, pt in (('absence', 'no ' + ev), ('existence', 'some ' + ev), ('response', ev + ' causes w'), ('response-behaviour', 'u causes ' + ev), ('requirement', ev + ' requires w'),
+                   ('requirement-trigger', 'u requires ' + ev), ('prevention', ev + ' forbids w'), ('prevention-behaviour', 'u forbids ' + ev)):
+        alias[f'alias-from-activator, {pk}'] = 'after s as A: ' + pt
+        alias[f'alias-from-activator of after-until, {pk}'] = 'after s as A until u2: ' + pt
+    for pk, pt in (('absence', 'no u'), ('existence', 'some u'), ('response', 'u causes w'), ('requirement', 'u requires w'), ('prevention', 'u forbids w')):
+        alias[f'alias-in-terminator, {pk}'] = 'after s as A until ' + ev + ': ' + pt
+    alias['alias-from-trigger'] = 'globally: s as A causes ' + ev
+    alias['alias-from-trigger (prevention)'] = 'globally: s as A forbids ' + ev
+    alias['alias-from-behaviour (requirement)'] = 'globally: s as A requires ' + ev
+    alias['alias-from-disjunctive-trigger'] = 'globally: (s as A or u) causes ' + ev
+    alias['alias-from-disjunctive-activator'] = 'after (u or s as A): no ' + ev
+    alias['alias-used-inside-a-disjunction'] = 'after s as A: no (u or ' + ev + ')'
+    alias['alias-used-inside-a-disjunctive-behaviour'] = 'globally: s as A causes (' + ev + ' or u or w)'
+    alias['alias-used-inside-a-disjunctive-terminator'] = 'after s as A until (u or ' + ev + '): some w'
+    return own, alias
+
+
+POSITIONS, ALIAS_POSITIONS = _positions()
+POSITIONS['behaviour'] = POSITIONS['absence in globally']
+ALIAS_POSITIONS['alias-from-activator'] = ALIAS_POSITIONS['alias-from-activator, absence']
 
 
 def expected(path, site_type, root_types, bound=frozenset()):
@@ -232,18 +255,20 @@ def schema_cases(sname, tier):
                 yield rootname, bad, None, st, why
 
 
-def run_schema(sname, tier, r):
+def run_schema(sname, tier, r, shard=0, shards=1):
     problems = []
     sc = schemas.FAMILY[sname]
     tok = schemas.to_token(sc, 'M')
     atok = schemas.to_token(schemas.renamed(sc), 'MA')
     other = schemas.to_token(schemas.FAMILY['flat'], 'O')
-    msg_types = {'t': tok, 's': atok, 'u': other, 'w': other}
+    msg_types = {'t': tok, 's': atok, 'u': other, 'w': other, 'u2': other}
     dtok = schemas.to_token(schemas.retyped(sc), 'D')
     datok = schemas.to_token(schemas.renamed(schemas.retyped(sc)), 'DA')
-    check_case.decoys = [{'t': dtok, 's': datok, 'u': other, 'w': other}, {'t': other, 's': other, 'u': other, 'w': other}]
+    check_case.decoys = [{'t': dtok, 's': datok, 'u': other, 'w': other, 'u2': other}, {'t': other, 's': other, 'u': other, 'w': other, 'u2': other}]
     root_types = {'this': sc, 'A': schemas.renamed(sc)}
-    for rootname, path, t, st, why in schema_cases(sname, tier):
+    for case_no, (rootname, path, t, st, why) in enumerate(schema_cases(sname, tier)):
+        if case_no % shards != shard:
+            continue
         for site_name, (site_type, build) in st.items():
             if t is not None:
                 # valid path: every site; the expectation depends on the declared type
@@ -410,7 +435,7 @@ def check_tokens(r):
 
 
 def plan(tier):
-    units = [('schema', tier, s) for s in bounds(tier)['schemas']]
+    units = [('schema', tier, s, k, 6) for s in bounds(tier)['schemas'] for k in range(6)]
     units += [('helpers', tier, s) for s in schemas.ALL_SCHEMAS]
     units.append(('tokens', tier))
     return units
@@ -420,7 +445,7 @@ def run(unit):
     r = Result()
     what, tier = unit[0], unit[1]
     if what == 'schema':
-        probs = run_schema(unit[2], tier, r)
+        probs = run_schema(unit[2], tier, r, unit[3] if len(unit) > 3 else 0, unit[4] if len(unit) > 4 else 1)
         r.sample({'schema': unit[2], 'case': 'globally: no t { xs [ nope ] > 0 }'})
     elif what == 'helpers':
         probs = check_helpers(unit[2], r)
@@ -444,7 +469,7 @@ def replay(w):
 def describe(tier):
     b = bounds(tier)
     return {
-        'rule': f"schemas {list(b['schemas'])}: every valid accessor chain (depth <= {b['path_depth']}, rooted at the current message and at an alias; plus in-range literal indices) and every chain invalid in exactly one way (unknown field, field access on a primitive / array, index on a primitive / message, literal index = length and length + 1) placed at each of up to 16 nesting sites (top level, under not/and, arithmetic, range bound, set element, function argument, quantifier body, quantifier range domain, boolean and string sites, array sites: in / len / quantifier domain, index expression, arithmetic inside an index, index on an inner accessor of a chain, an array of the other message indexed by this message's reference) - sites whose required type differs from the declared one give the type-mismatch cases - and at 5 property positions / 5 alias bindings (incl. aliases bound inside event disjunctions; the aliased message has a different message type); expectation from the independent resolver; the raised error must name the offending field, index or path. Plus leaf_fields / get_type_of / contains_name on every (nested) message of all 6 schemas, the 8 predefined integer tokens, and constructor grids (169 min/max pairs incl. integers beyond 2**53 that differ by one, 6 array lengths, 15 enumerated-value combinations, all 128 type sets for TypeToken). Every case is checked twice: on a fresh property object, and on a second object after it was checked against two decoy schemas (same field tree with every leaf type changed and arrays cut to length 1; a schema without these fields) - the verdicts must agree.",
+        'rule': f"schemas {list(b['schemas'])}: every valid accessor chain (depth <= {b['path_depth']}, rooted at the current message and at an alias; plus in-range literal indices) and every chain invalid in exactly one way (unknown field, field access on a primitive / array, index on a primitive / message, literal index = length and length + 1) placed at each of up to 16 nesting sites (top level, under not/and, arithmetic, range bound, set element, function argument, quantifier body, quantifier range domain, boolean and string sites, array sites: in / len / quantifier domain, index expression, arithmetic inside an index, index on an inner accessor of a chain, an array of the other message indexed by this message's reference) - sites whose required type differs from the declared one give the type-mismatch cases - and at 5 property positions / 5 alias bindings (incl. aliases bound inside event disjunctions; the aliased message has a different message type); expectation from the independent resolver; the raised error must name the offending field, index or path. Plus leaf_fields / get_type_of / contains_name on every (nested) message of all 6 schemas, the 8 predefined integer tokens, and constructor grids (169 min/max pairs incl. integers beyond 2**53 that differ by one, 6 array lengths, 15 enumerated-value combinations, all 128 type sets for TypeToken). Every case is checked twice: on a fresh property object, and on a second object after it was checked against two decoy schemas (same field tree with every leaf type changed and arrays cut to length 1; a schema without these fields) - the verdicts must agree. Positions: the event that carries the path is placed in every scope position x scope kind x pattern kind (55 own-message positions: pattern events under 4 scope kinds x 8 pattern slots, activators and terminators under 5 pattern kinds, disjunction members) and alias-rooted paths in 30 positions (alias from the activator under every pattern slot, in the terminator under every pattern kind, from triggers / behaviours, from and inside disjunctions).",
         'bounds': {'path_depth': b['path_depth'], 'schemas': len(b['schemas'])},
         'exhaustive': True,
         'assumptions': ['resolver and field-tree walk in hplmc/schemas.py are the reference'],
